@@ -148,6 +148,71 @@ func noiseContainer(r *Rng, c *corev1.Container) {
 	}
 }
 
+// podNoise randomises fields of the pod that the Pod Security Standards do not mention.
+func podNoise(r *Rng, p *corev1.Pod) {
+	if r.Chance(1, 2) {
+		p.Labels = map[string]string{"app": "x", "kubernetes.io/os": pick(r, []string{"windows", "linux"})}
+		p.Spec.NodeName = "n1"
+		p.Spec.ServiceAccountName = "sa"
+	}
+	if r.Chance(1, 3) {
+		p.Spec.NodeSelector = map[string]string{"kubernetes.io/os": pick(r, []string{"windows", "linux", "Windows"}), "beta.kubernetes.io/os": pick(r, []string{"windows", "linux"})}
+	}
+	if r.Chance(1, 4) {
+		p.Spec.Tolerations = []corev1.Toleration{{Key: "os", Value: "windows", Effect: corev1.TaintEffectNoSchedule}}
+		p.Spec.PriorityClassName = "system-node-critical"
+		p.Spec.SchedulerName = "s"
+	}
+	if r.Chance(1, 4) {
+		p.Spec.AutomountServiceAccountToken = bp(r.Bool())
+		p.Spec.ShareProcessNamespace = bp(r.Bool())
+		p.Spec.EnableServiceLinks = bp(r.Bool())
+		p.Spec.Hostname = "h"
+		p.Spec.Subdomain = "s"
+		p.Spec.DNSPolicy = pick(r, []corev1.DNSPolicy{corev1.DNSClusterFirst, corev1.DNSDefault, corev1.DNSClusterFirstWithHostNet})
+		p.Spec.RestartPolicy = pick(r, []corev1.RestartPolicy{corev1.RestartPolicyAlways, corev1.RestartPolicyNever})
+		p.Spec.SetHostnameAsFQDN = bp(r.Bool())
+	}
+	if r.Chance(1, 5) {
+		p.Spec.HostAliases = []corev1.HostAlias{{IP: "127.0.0.1", Hostnames: []string{"x"}}}
+		p.Spec.ImagePullSecrets = []corev1.LocalObjectReference{{Name: "s"}}
+		p.Spec.TerminationGracePeriodSeconds = ip(int64(r.Intn(3)))
+		p.Spec.ActiveDeadlineSeconds = ip(5)
+	}
+	if r.Chance(1, 5) {
+		if p.Annotations == nil {
+			p.Annotations = map[string]string{}
+		}
+		p.Annotations["kubernetes.io/os"] = "windows"
+		p.Annotations["example.com/privileged"] = "true"
+		p.Finalizers = []string{"x"}
+		p.GenerateName = "gen-"
+	}
+	visit(&p.Spec, func(c *corev1.Container) {
+		if r.Chance(1, 5) {
+			c.TTY, c.Stdin = r.Bool(), r.Bool()
+			c.WorkingDir = "/w"
+			c.ImagePullPolicy = corev1.PullAlways
+			c.TerminationMessagePath = "/dev/termination-log"
+			c.Args = []string{"--privileged"}
+		}
+		if c.SecurityContext != nil && r.Chance(1, 5) {
+			if c.SecurityContext.SeccompProfile != nil && c.SecurityContext.SeccompProfile.Type == "Localhost" {
+				c.SecurityContext.SeccompProfile.LocalhostProfile = sp("p.json")
+			}
+			if c.SecurityContext.AppArmorProfile != nil && c.SecurityContext.AppArmorProfile.Type == "Localhost" {
+				c.SecurityContext.AppArmorProfile.LocalhostProfile = sp("prof")
+			}
+			if c.SecurityContext.WindowsOptions != nil {
+				c.SecurityContext.WindowsOptions.RunAsUserName = sp("ContainerAdministrator")
+			}
+			if c.SecurityContext.SELinuxOptions != nil {
+				c.SecurityContext.SELinuxOptions.Level = "s0:c1,c2"
+			}
+		}
+	})
+}
+
 // genPod builds a pod from a skeleton, a base (compliant at restricted / baseline-only / bare) and a list of atoms.
 func genPod(r *Rng, i int) PodCase {
 	pc := PodCase{}
@@ -185,12 +250,6 @@ func genPod(r *Rng, i int) PodCase {
 		p.Spec.SecurityContext = &corev1.PodSecurityContext{RunAsNonRoot: bp(true)}
 	} else if r.Bool() {
 		p.Spec.SecurityContext = &corev1.PodSecurityContext{}
-	}
-	// unmodelled noise
-	if r.Chance(1, 2) {
-		p.Labels = map[string]string{"app": "x"}
-		p.Spec.NodeName = "n1"
-		p.Spec.ServiceAccountName = "sa"
 	}
 
 	containerAt := func(j int) *corev1.SecurityContext {
@@ -330,6 +389,8 @@ func genPod(r *Rng, i int) PodCase {
 		}
 		pc.Atoms = append(pc.Atoms, a)
 	}
+	// noise on fields the standard does not mention (the projection drops them; a verdict must not depend on them)
+	podNoise(r, p)
 	// admission-only fields
 	if r.Chance(1, 6) {
 		p.Spec.RuntimeClassName = pick(r, []*string{nil, sp("exrc"), sp("exr"), sp("EXRC"), sp("")})
